@@ -27,6 +27,7 @@ def extra_leaves():
         "D22s": catalog.dense([[1, 2], [3, 4]], "f64"),          # det -2: sign flips
         "D22h": catalog.dense([[1, 1], [0, 1]], "f64"),
         "D33n": catalog.dense([[0, 1, 0], [1, 0, 0], [0, 0, 2]], "f64"),   # det -2, needs pivoting
+        "D33cyc": catalog.dense([[1, 5, 1], [1, 1, 5], [5, 1, 1]], "f64"),   # partial pivoting permutes the rows cyclically
         "TL33": catalog.tri([[2, 0, 0], [1, -1, 0], [0, 3, 1]], True, "f64"),
         "TU22c": catalog.tri([[1j, 2], [0, 2]], False, "c128"),
     }
@@ -70,6 +71,10 @@ def plan(tier, seed, acts_extra=(), lvl2=True, nonsq=False):
     nb = [tl["T_sh"], tl["T_dg"], catalog.dense([[2]], "f64"), catalog.dense([[-3]], "f64"), catalog.dense([[1j]], "c128")]
     runs.append(dict(seeds=nb, operands=nb, small=nb[:2], acts={"BlockDiag", "linalg"} | set(acts_extra), lvl=2, dim=8,
                      ebound=12))
+    # three and more positive-definite blocks of different sizes in every order (cholesky / plu per block)
+    pdb = [L["Sy22d"], L["Hc22d"], catalog.dense([[2]], "f64"), catalog.dense([[5]], "f64"), L["Sy33d"]]
+    runs.append(dict(seeds=pdb, operands=pdb[:4], small=[pdb[2], pdb[0], pdb[3]], acts={"BlockDiag3", "linalg"}
+                     | set(acts_extra), lvl=1, dim=8, ebound=12))
     if nonsq:
         # square trees assembled from non-square factors (Kronecker(2x3, 3x2), BlockDiag(1x3, 3x1), products, sums)
         ns = [L[n] for n in ["D23", "D32", "D13", "D31", "D32c", "D22", "Dg2", "I2"]]
